@@ -139,8 +139,6 @@ class C11(Prop):
         hists = self.histories(deep)
         for size in ([bs + 1] if not deep else [0, 1, bs, bs + 1, 100]):
             for label, spec in body_specs(size):
-                if label == "array-H":
-                    continue
                 for h in hists:
                     for level in ("pool", "manager"):
                         n += 1
@@ -162,8 +160,6 @@ class C11(Prop):
             size = rng.choice(sizes + [2, 5, 33])
             label, spec = rng.choice(list(body_specs(size)))
             level = rng.choice(["conn", "pool", "manager"])
-            if label == "array-H" and level != "conn":
-                continue
             h = "o" if level == "conn" else rng.choice(hists)
             yield {"level": level, "meth": rng.choice(METHODS[:-1] if level != "conn" else METHODS), "body": spec,
                    "label": label, "chunked": rng.random() < 0.4, "bs": rng.choice([1, 4, 16, 17]), "hist": h,
